@@ -611,6 +611,47 @@ Proof.
     cbn [pend recs_of map filter]. unfold mm. cbn [map]. rewrite app_nil_r. split; [reflexivity|]. split; [constructor|]. split; [lia|exact HI].
 Qed.
 
+(* ---------------------------------------------------------------- progress *)
+(* when the bytes of the current message and of the next n are present and one of these records
+   is at or after mn, a message is delivered *)
+Lemma lg_read_delivers mn : forall items it j n,
+  len (mb (snd it)) + len (stream (firstn n items)) <= j ->
+  (exists r, In r (snd it :: recs_of (firstn n items)) /\ mn <= r_off r) ->
+  exists it' items' j', lg_read mn it items j = LDeliver it' items' j'.
+Proof.
+  induction items as [|it2 t IH]; intros it j n Hj (r & Hr & Hge).
+  - rewrite firstn_nil in *. cbn [recs_of map stream flat_map] in *. change (len []) with 0 in Hj.
+    cbn [lg_read]. replace (j <? len (mb (snd it))) with false by lia.
+    destruct Hr as [<-|[]]. replace (r_off (snd it) <? mn) with false by lia. eauto.
+  - cbn [lg_read]. pose proof (len_nonneg (stream (firstn n (it2 :: t)))).
+    replace (j <? len (mb (snd it))) with false by lia.
+    destruct (r_off (snd it) <? mn) eqn:E; [|eauto].
+    destruct n as [|n]; cbn [firstn recs_of map] in Hr.
+    { destruct Hr as [<-|[]]. lia. }
+    destruct Hr as [<-|Hr]; [lia|].
+    cbn [firstn] in Hj. change (stream (it2 :: firstn n t)) with (enc_item it2 ++ stream (firstn n t)) in Hj.
+    unfold enc_item in Hj. rewrite !len_app in Hj.
+    pose proof (len_nonneg (stream (firstn n t))). pose proof (len_nonneg (mb (snd it2))).
+    replace (j - len (mb (snd it)) <? len (mh (fst it2) (snd it2))) with false by lia.
+    apply (IH it2 _ n); [lia|]. exists r. split; [exact Hr|exact Hge].
+Qed.
+
+Lemma l_run_nonempty f P off acc it' items' j' :
+  linv P off -> lstep off P = LDeliver it' items' j' ->
+  match l_run (S f) P off acc with
+  | LDone ms x => ms <> []
+  | LGo j h off' acc' f' => acc' <> []
+  | LFail => True
+  end.
+Proof.
+  intros HI El. cbn [l_run]. rewrite El.
+  destruct (linv_step P off it' items' j' HI El) as (HI' & _).
+  pose proof (l_run_spec f (PBnd items' j' (mhdr (fst it') (snd it'))) (r_off (snd it') + 1) (msg_of (snd it') :: acc) HI') as Hs.
+  destruct (l_run f _ _ _) as [ms x|j h off' acc' f'|]; [| |exact I].
+  - destruct Hs as (Rp & Rs & _ & G2 & _). rewrite G2. cbn [rev]. destruct (rev acc); discriminate.
+  - destruct Hs as (G1 & _). intros Hn. subst acc'. cbn [rev] in G1. destruct (rev acc); discriminate.
+Qed.
+
 (* nothing follows the messages: the end of the response *)
 Lemma bnd_nil_done f j h off acc :
   tl = [] ->
